@@ -140,7 +140,7 @@ def rand_gate(rng, width, names=None, max_controls=3, ang_profile="mixed", var_p
     return gspec("X", [0])
 
 
-def rand_gate_list(rng, width, n, names=None, max_controls=3, ang_profile="mixed", corr=0.45):
+def rand_gate_list(rng, width, n, names=None, max_controls=3, ang_profile="mixed", corr=0.45, var_prob=0.15):
     """gate list with correlated neighbours: repeats, inverses and re-parametrised copies of earlier gates, so that the
     merge / cancel passes actually fire"""
     gs = []
@@ -165,7 +165,7 @@ def rand_gate_list(rng, width, n, names=None, max_controls=3, ang_profile="mixed
             g["v"] = g["v"] if rng.random() < 0.8 else (not g["v"] and g["p"] is not None)
             gs.append(g)
         else:
-            gs.append(rand_gate(rng, width, names, max_controls, ang_profile))
+            gs.append(rand_gate(rng, width, names, max_controls, ang_profile, var_prob))
     return gs
 
 
